@@ -378,6 +378,14 @@ def stepPosix (_ : Unit) (toks : List String) : IO (Unit × Bool) := do
     match code.toInt? with
     | some code => IO.println s!"new ret={if Posix.newOk true code then 1 else 0}"; return ((), false)
     | none => IO.println "bad-op"; return ((), false)
+  -- `p_rwlock_free`: one `pthread_rwlock_destroy` on the object's own handle; the object is released whatever the code
+  | ["free", code] =>
+    match code.toInt? with
+    | some code =>
+      let (destroyCalled, released) := Posix.freeResult code
+      IO.println s!"free pthread={if destroyCalled then "destroy" else "none"} handle=own released={if released then 1 else 0}"
+      return ((), false)
+    | none => IO.println "bad-op"; return ((), false)
   -- every call goes to the handle inside the lock object it is given (`&lock->hdl`, `&ret->hdl`)
   | ["ident"] => IO.println "ident ok"; return ((), false)
   | ["reset"] => IO.println "ok"; return ((), false)
